@@ -1,10 +1,12 @@
 import FgaVerif.Proofs.GParseSound
+import FgaVerif.Proofs.GParseComplete
+import FgaVerif.Gen.Grammar
 /-!
 # Front end — theorems about the lexer and parser models
 
 This file collects what is proved about the models of the front end (DSL text → tokens → parse tree).
 
-## The parser model is sound with respect to the grammar, for every grammar
+## The parser model is sound and complete with respect to the grammar, for every grammar
 
 `Model/GParse.lean` is a parser that *interprets* the rule bodies of `Gen/Grammar.lean`, which are
 translated from `OpenFGAParser.g4` on every run.  The theorems below are **generic in the grammar**
@@ -36,15 +38,40 @@ Proved, for **every** grammar, start rule and token array:
 * `match_yield` — the general fact behind it: whatever a match of a body pushes has exactly the tokens of
   its span as leaves.
 
-**Not proved**: *completeness* (that `parse` finds a tree whenever a derivation exists — it can also
-answer `outOfFuel`), and that the *first* parse in the interpreter's order is the one ANTLR's adaptive
-prediction picks.  Both are checked by running the parser model against the real ANTLR parser, tree by
-tree, on every DSL text the checks generate (`Driver.lean`, command `lexparse`): a missing or different
-tree shows up there.  What the theorems add is that a tree on which both agree is a derivation by the
-grammar of exactly the token sequence, so the comparison cannot be satisfied by a tree that is not one.
+**Completeness** (`Proofs/GParseComplete.lean`), for every grammar, start rule and token array, modulo the
+explicit answer `outOfFuel` and one side condition on `x+`:
+
+* `parse_complete` — if a derivation tree of the start rule spanning all tokens exists then `parse` does not
+  answer `noParse` (it returns a tree, or says `outOfFuel`: `parse_of_derives`);
+* `parse_noParse` — so the answer `noParse` proves that the token sequence is not in the language;
+* `parse_cases`, `parse_accepts_iff`, `parse_noParse_iff` — with soundness: whenever the answer is not
+  `outOfFuel`, `parse` returns a tree exactly for the token sequences of the language of the start rule;
+* `parseRule_complete` — the statement behind them, any fuel: the results of a rule at a position have
+  every end position that a derivation of the rule from that position reaches, unless the run set the
+  flag `outOfFuel` (left recursion, for instance, runs out of fuel and says so).
+
+The side condition `PlusProgress rules toks` — no rule body contains an `x+` whose body `x` can match the
+empty span — is **necessary** (`plus_counterexample`: for `s : (A?)+ ;` and no tokens there is a derivation,
+since `Match.plus` lets the first iteration match the empty span, and `parse` answers `noParse`, since the
+interpreter keeps only iterations that make progress; for `x*` dropping them is harmless, for `x+` it loses
+exactly the empty match).  It follows from the decidable syntactic check `plusGuarded rules k` (every `x+`
+body consumes a token on every path, rule references followed to depth `k`: `plusGuarded_sound`), and that
+check is evaluated by the kernel on the grammar of this run (`grammar_plusGuarded`), so for the translated
+`OpenFGAParser.g4` completeness holds without side condition (`grammar_parse_accepts_iff`,
+`grammar_parse_noParse`).  (ANTLR 4 reports a closure whose body can match the empty string as a grammar
+error, `EPSILON_CLOSURE`, so a grammar it accepts is expected to pass the check.)
+
+**Not proved**: that the *first* parse in the interpreter's order is the tree ANTLR's adaptive prediction
+picks for an ambiguous input, and that the fuel `16 * toks.size + 400` always suffices for this particular
+grammar (i.e. that `parse Gen.Grammar.rules` never answers `outOfFuel`).  Both are checked by running the
+parser model against the real ANTLR parser, tree by tree, on every DSL text the checks generate
+(`Driver.lean`, command `lexparse`): a different tree or an `outOfFuel` shows up there.  What the theorems
+add is that a tree on which both agree is a derivation by the grammar of exactly the token sequence, and
+that a `noParse` of the model is a proof that the grammar derives no tree for the token sequence.
 -/
 namespace FgaVerif.Props.Front
 open FgaVerif.Model FgaVerif.Model.Conform FgaVerif.Model.GParse FgaVerif.Proofs.GParseSound
+open FgaVerif.Proofs.GParseComplete (PlusProgress plusGuarded)
 
 /-- **the parser model is sound, for every grammar**: a tree returned by `parse` is a derivation tree of
     the start rule (by `rules`) whose span is the whole token array. -/
@@ -159,5 +186,102 @@ example : Derives toyRules toyToks "main" toyTree 0 toyToks.size := by
         (Match.seqCons (Match.tok h2 rfl) Match.seqNil)))
 
 example : leaves toyTree = toyToks.toList.map tokTree := rfl
+
+/-! ### completeness
+
+`PlusProgress rules toks`: no rule body of `rules` contains an `x+` whose body `x` can match the empty span
+(over `toks`); `plusGuarded rules k`: the decidable syntactic check that implies it for every token array. -/
+
+/-- **the parser model is complete, for every grammar** (whose `x+` bodies cannot match the empty span): if
+    a derivation tree of the start rule spanning the whole token array exists, `parse` does not answer
+    `noParse`. -/
+theorem parse_complete (rules : List (String × Gram)) (start : String) (toks : Array Tok) (t : Tree)
+    (hG : PlusProgress rules toks) (h : Derives rules toks start t 0 toks.size) :
+    parse rules start toks ≠ .noParse :=
+  FgaVerif.Proofs.GParseComplete.parse_complete rules start toks t hG h
+
+/-- a derivable token sequence gets a tree, or the explicit answer `outOfFuel` -/
+theorem parse_of_derives (rules : List (String × Gram)) (start : String) (toks : Array Tok) (t : Tree)
+    (hG : PlusProgress rules toks) (h : Derives rules toks start t 0 toks.size) :
+    (∃ t', parse rules start toks = .tree t') ∨ parse rules start toks = .outOfFuel :=
+  FgaVerif.Proofs.GParseComplete.parse_of_derives rules start toks t hG h
+
+/-- **`noParse` proves that the token sequence is not in the language** of the start rule -/
+theorem parse_noParse (rules : List (String × Gram)) (start : String) (toks : Array Tok)
+    (hG : PlusProgress rules toks) (h : parse rules start toks = .noParse) :
+    ¬ ∃ t, Derives rules toks start t 0 toks.size :=
+  FgaVerif.Proofs.GParseComplete.parse_noParse rules start toks hG h
+
+/-- the three answers: a tree, which is a derivation; out of fuel; or `noParse`, and then there is no
+    derivation -/
+theorem parse_cases (rules : List (String × Gram)) (start : String) (toks : Array Tok)
+    (hG : PlusProgress rules toks) :
+    (∃ t, parse rules start toks = .tree t ∧ Derives rules toks start t 0 toks.size) ∨
+    parse rules start toks = .outOfFuel ∨
+    (parse rules start toks = .noParse ∧ ¬ ∃ t, Derives rules toks start t 0 toks.size) :=
+  FgaVerif.Proofs.GParseComplete.parse_cases rules start toks hG
+
+/-- **soundness and completeness together**: when the answer is not `outOfFuel`, `parse` returns a tree
+    exactly for the token sequences that the grammar derives from the start rule -/
+theorem parse_accepts_iff (rules : List (String × Gram)) (start : String) (toks : Array Tok)
+    (hG : PlusProgress rules toks) (hf : parse rules start toks ≠ .outOfFuel) :
+    (∃ t, parse rules start toks = .tree t) ↔ ∃ t, Derives rules toks start t 0 toks.size :=
+  FgaVerif.Proofs.GParseComplete.parse_accepts_iff rules start toks hG hf
+
+/-- … and answers `noParse` exactly for the others -/
+theorem parse_noParse_iff (rules : List (String × Gram)) (start : String) (toks : Array Tok)
+    (hG : PlusProgress rules toks) (hf : parse rules start toks ≠ .outOfFuel) :
+    parse rules start toks = .noParse ↔ ¬ ∃ t, Derives rules toks start t 0 toks.size :=
+  FgaVerif.Proofs.GParseComplete.parse_noParse_iff rules start toks hG hf
+
+/-- the results of a rule at a position, any fuel, from the empty memo table: unless the run ran out of
+    fuel, they have every end position that a derivation of the rule from that position reaches -/
+theorem parseRule_complete (rules : List (String × Gram)) (toks : Array Tok) (hG : PlusProgress rules toks)
+    (f : Nat) (n : String) (p : Nat)
+    (hfl : (runM (parseRule rules toks f n p) {}).2.outOfFuel = false) (t : Tree) (q : Nat)
+    (h : Derives rules toks n t p q) : ∃ r ∈ (runM (parseRule rules toks f n p) {}).1, r.1 = q :=
+  FgaVerif.Proofs.GParseComplete.parseRule_complete hG f n p hfl h
+
+/-- the decidable check implies the side condition, for every token array -/
+theorem plusGuarded_sound (rules : List (String × Gram)) (k : Nat) (h : plusGuarded rules k = true)
+    (toks : Array Tok) : PlusProgress rules toks :=
+  FgaVerif.Proofs.GParseComplete.plusGuarded_sound h toks
+
+/-- **the side condition is necessary**: a grammar (`s : (A?)+ ;`), a token array (empty) and a derivation
+    for which `parse` answers `noParse` -/
+theorem plus_counterexample :
+    ∃ (rules : List (String × Gram)) (start : String) (toks : Array Tok),
+      (∃ t, Derives rules toks start t 0 toks.size) ∧ parse rules start toks = .noParse :=
+  FgaVerif.Proofs.GParseComplete.plus_counterexample
+
+/-! ### the grammar of this run
+
+`Gen/Grammar.lean` (the translation of `OpenFGAParser.g4` made on this run) passes the check, evaluated by
+the kernel, so for it completeness holds without side condition. -/
+
+/-- in the translated `OpenFGAParser.g4`, every `x+` body consumes a token -/
+theorem grammar_plusGuarded : plusGuarded FgaVerif.Gen.Grammar.rules 16 = true := by decide +kernel
+
+theorem grammar_plusProgress (toks : Array Tok) : PlusProgress FgaVerif.Gen.Grammar.rules toks :=
+  plusGuarded_sound _ 16 grammar_plusGuarded toks
+
+/-- **for the OpenFGA grammar, `noParse` proves that the token sequence is not in the language** -/
+theorem grammar_parse_noParse (start : String) (toks : Array Tok)
+    (h : parse FgaVerif.Gen.Grammar.rules start toks = .noParse) :
+    ¬ ∃ t, Derives FgaVerif.Gen.Grammar.rules toks start t 0 toks.size :=
+  parse_noParse _ start toks (grammar_plusProgress toks) h
+
+/-- **for the OpenFGA grammar, when the answer is not `outOfFuel`, the parser model returns a tree exactly
+    for the token sequences of the language** -/
+theorem grammar_parse_accepts_iff (start : String) (toks : Array Tok)
+    (hf : parse FgaVerif.Gen.Grammar.rules start toks ≠ .outOfFuel) :
+    (∃ t, parse FgaVerif.Gen.Grammar.rules start toks = .tree t) ↔
+      ∃ t, Derives FgaVerif.Gen.Grammar.rules toks start t 0 toks.size :=
+  parse_accepts_iff _ start toks (grammar_plusProgress toks) hf
+
+/-- the toy grammar passes the check too, and its three tokens are accepted: consistent with `toy_parse` -/
+example : (∃ t, parse toyRules "main" toyToks = .tree t) ↔
+    ∃ t, Derives toyRules toyToks "main" t 0 toyToks.size :=
+  parse_accepts_iff _ _ _ (plusGuarded_sound toyRules 8 (by decide +kernel) _) (by rw [toy_parse]; simp)
 
 end FgaVerif.Props.Front
